@@ -1,7 +1,8 @@
 (* L0: an executable model of the WHOLE formatter on a fragment of Lua 5.1 (default options except the whitespace
    ones; column width large enough that nothing is broken over lines).
-   Fragment: every statement kind except goto/labels; expressions without function bodies, long strings, escapes,
-   comments.  The model has two halves:
+   Fragment: every statement kind except goto/labels; expressions without function bodies and long strings; line
+   comments on their own line before a statement or before the end of a block / of the file, and after a statement
+   on its line; blank lines between them.  The model has two halves:
      norm  - what the formatter changes in the tree: redundant parentheses (the rule of Parens.v, contexts as in
              src/formatters), the guard against `- -`;
      print - the token list it writes: blanks, line breaks, indentation.
@@ -24,20 +25,28 @@ Inductive exp :=
 | ETable (fs : list exp)                             (* fields: FPos / FNamed / FKey only *)
 | FPos (e : exp) | FNamed (n : bytes) (e : exp) | FKey (k e : exp).
 
+(* Comments at statement level.  A comment is the text of a line comment after its two dashes, without trailing
+   blanks; [trivia] is a run of own-line comments, each with the flag "a blank line precedes it".
+   An item is a statement with the own-line comments in front of it, a blank-line flag for the statement itself, and the
+   comment that trails it on its line; a block is its items and the comments left dangling before the closing keyword
+   (or the end of the file). *)
+Definition trivia := list (bool * bytes).
 Inductive stmt :=
 | SLocal (ns : list bytes) (es : list exp)
 | SAssign (vs es : list exp)
 | SCall (e : exp)
-| SDo (b : list stmt)
-| SWhile (c : exp) (b : list stmt)
-| SRepeat (b : list stmt) (c : exp)
-| SIf (c : exp) (t : list stmt) (e : els)
-| SNumFor (v : bytes) (a b : exp) (st : option exp) (body : list stmt)
-| SGenFor (ns : list bytes) (es : list exp) (body : list stmt)
-| SFunction (path : list bytes) (meth : option bytes) (ps : list bytes) (va : bool) (body : list stmt)
-| SLocalFunction (n : bytes) (ps : list bytes) (va : bool) (body : list stmt)
+| SDo (b : blk)
+| SWhile (c : exp) (b : blk)
+| SRepeat (b : blk) (c : exp)
+| SIf (c : exp) (t : blk) (e : els)
+| SNumFor (v : bytes) (a b : exp) (st : option exp) (body : blk)
+| SGenFor (ns : list bytes) (es : list exp) (body : blk)
+| SFunction (path : list bytes) (meth : option bytes) (ps : list bytes) (va : bool) (body : blk)
+| SLocalFunction (n : bytes) (ps : list bytes) (va : bool) (body : blk)
 | SReturn (es : list exp) | SBreak
-with els := NoElse | Else (b : list stmt) | ElseIf (c : exp) (t : list stmt) (e : els).
+with els := NoElse | Else (b : blk) | ElseIf (c : exp) (t : blk) (e : els)
+with item := Item (lead : trivia) (blank : bool) (s : stmt) (trail : option bytes)
+with blk := Blk (items : list item) (tail : trivia).
 
 (* ---------------- norm: the tree the formatter writes ---------------- *)
 (* the operator shape of an expression, as Parens.v sees it *)
@@ -75,24 +84,27 @@ Fixpoint nstmt (s : stmt) : stmt :=
   | SLocal ns es => SLocal ns (nexps es)
   | SAssign vs es => SAssign (nexps vs) (nexps es)
   | SCall e => SCall (nexp Std e)
-  | SDo b => SDo (map nstmt b)
-  | SWhile c b => SWhile (ncond c) (map nstmt b)
-  | SRepeat b c => SRepeat (map nstmt b) (ncond c)
-  | SIf c t e => SIf (ncond c) (map nstmt t) (nels e)
-  | SNumFor v a b st body => SNumFor v (nexp Std a) (nexp Std b) (option_map (nexp Std) st) (map nstmt body)
-  | SGenFor ns es body => SGenFor ns (nexps es) (map nstmt body)
-  | SFunction p m ps va body => SFunction p m ps va (map nstmt body)
-  | SLocalFunction n ps va body => SLocalFunction n ps va (map nstmt body)
+  | SDo b => SDo (nblk b)
+  | SWhile c b => SWhile (ncond c) (nblk b)
+  | SRepeat b c => SRepeat (nblk b) (ncond c)
+  | SIf c t e => SIf (ncond c) (nblk t) (nels e)
+  | SNumFor v a b st body => SNumFor v (nexp Std a) (nexp Std b) (option_map (nexp Std) st) (nblk body)
+  | SGenFor ns es body => SGenFor ns (nexps es) (nblk body)
+  | SFunction p m ps va body => SFunction p m ps va (nblk body)
+  | SLocalFunction n ps va body => SLocalFunction n ps va (nblk body)
   | SReturn es => SReturn (nexps es)
   | SBreak => SBreak
   end
 with nels (e : els) : els :=
   match e with
   | NoElse => NoElse
-  | Else b => Else (map nstmt b)
-  | ElseIf c t e => ElseIf (ncond c) (map nstmt t) (nels e)
-  end.
-Definition nprog := map nstmt.
+  | Else b => Else (nblk b)
+  | ElseIf c t e => ElseIf (ncond c) (nblk t) (nels e)
+  end
+with nitem (i : item) : item := match i with Item l b s t => Item l b (nstmt s) t end
+with nblk (b : blk) : blk := match b with Blk is tl => Blk (map nitem is) tl end.
+Definition nprog := nblk.
+
 
 (* ---------------- print: the tokens the formatter writes ---------------- *)
 Record cfg0 := { windows0 : bool; spaces0 : bool; width0 : nat; style0 : QuoteMore.style }.
@@ -155,26 +167,30 @@ Section Print.
 Variable c : cfg0.
 Notation pexp := (pexp (style0 c)).
 Notation pexps := (pexps (style0 c)).
+(* own-line comments: an optional empty line, the indentation, the comment, the line ending *)
+Definition ptrivia (d : nat) (tv : trivia) : list tok :=
+  List.concat (map (fun bc : bool * bytes => (if fst bc then [eol c] else []) ++ indent c d ++ [TLineCom (snd bc); eol c]) tv).
+Definition ptrail (t : option bytes) : list tok := match t with Some x => [sp; TLineCom x] | None => [] end.
+Definition blk_empty (b : blk) : bool := match b with Blk [] [] => true | _ => false end.
 (* one statement per line: indentation, the statement, the line ending.
    The lines of a block are written with map / concat so that the unfolding equations hold by computation. *)
 Fixpoint pstmt (d : nat) (s : stmt) {struct s} : list tok :=
-  let block (b : list stmt) : list tok := List.concat (map (fun x => indent c (S d) ++ pstmt (S d) x ++ [eol c]) b) in
-  let fbody (b : list stmt) : list tok :=
-    match b with [] => [sp; kw "end"] | _ => eol c :: block b ++ indent c d ++ [kw "end"] end in
+  let fbody (b : blk) : list tok :=
+    if blk_empty b then [sp; kw "end"] else eol c :: pblk (S d) b ++ indent c d ++ [kw "end"] in
   match s with
   | SLocal ns [] => kw "local" :: sp :: pnames ns
   | SLocal ns es => kw "local" :: sp :: pnames ns ++ sp :: kw "=" :: sp :: pexps es
   | SAssign vs es => pexps vs ++ sp :: kw "=" :: sp :: pexps es
   | SCall e => pexp e
-  | SDo b => kw "do" :: eol c :: block b ++ indent c d ++ [kw "end"]
-  | SWhile e b => kw "while" :: sp :: pexp e ++ sp :: kw "do" :: eol c :: block b ++ indent c d ++ [kw "end"]
-  | SRepeat b e => kw "repeat" :: eol c :: block b ++ indent c d ++ kw "until" :: sp :: pexp e
-  | SIf e t r => kw "if" :: sp :: pexp e ++ sp :: kw "then" :: eol c :: block t ++ pels d r ++ indent c d ++ [kw "end"]
+  | SDo b => kw "do" :: eol c :: pblk (S d) b ++ indent c d ++ [kw "end"]
+  | SWhile e b => kw "while" :: sp :: pexp e ++ sp :: kw "do" :: eol c :: pblk (S d) b ++ indent c d ++ [kw "end"]
+  | SRepeat b e => kw "repeat" :: eol c :: pblk (S d) b ++ indent c d ++ kw "until" :: sp :: pexp e
+  | SIf e t r => kw "if" :: sp :: pexp e ++ sp :: kw "then" :: eol c :: pblk (S d) t ++ pels d r ++ indent c d ++ [kw "end"]
   | SNumFor v a b st body =>
     kw "for" :: sp :: TIdent v :: sp :: kw "=" :: sp :: pexp a ++ kw "," :: sp :: pexp b ++
-    (match st with Some x => kw "," :: sp :: pexp x | None => [] end) ++ sp :: kw "do" :: eol c :: block body ++ indent c d ++ [kw "end"]
+    (match st with Some x => kw "," :: sp :: pexp x | None => [] end) ++ sp :: kw "do" :: eol c :: pblk (S d) body ++ indent c d ++ [kw "end"]
   | SGenFor ns es body =>
-    kw "for" :: sp :: pnames ns ++ sp :: kw "in" :: sp :: pexps es ++ sp :: kw "do" :: eol c :: block body ++ indent c d ++ [kw "end"]
+    kw "for" :: sp :: pnames ns ++ sp :: kw "in" :: sp :: pexps es ++ sp :: kw "do" :: eol c :: pblk (S d) body ++ indent c d ++ [kw "end"]
   | SFunction p m ps va body =>
     kw "function" :: sp :: dotted p ++ (match m with Some n => [kw ":"; TIdent n] | None => [] end) ++ pparams ps va ++ fbody body
   | SLocalFunction n ps va body => kw "local" :: sp :: kw "function" :: sp :: TIdent n :: pparams ps va ++ fbody body
@@ -183,15 +199,20 @@ Fixpoint pstmt (d : nat) (s : stmt) {struct s} : list tok :=
   | SBreak => [kw "break"]
   end
 with pels (d : nat) (r : els) {struct r} : list tok :=
-  let block (b : list stmt) : list tok := List.concat (map (fun x => indent c (S d) ++ pstmt (S d) x ++ [eol c]) b) in
   match r with
   | NoElse => []
-  | Else b => indent c d ++ kw "else" :: eol c :: block b
-  | ElseIf e2 t2 r2 => indent c d ++ kw "elseif" :: sp :: pexp e2 ++ sp :: kw "then" :: eol c :: block t2 ++ pels d r2
-  end.
-Definition pblock (d : nat) (b : list stmt) : list tok := List.concat (map (fun x => indent c d ++ pstmt d x ++ [eol c]) b).
-Definition pprog (p : list stmt) : list tok := pblock 0 p.
+  | Else b => indent c d ++ kw "else" :: eol c :: pblk (S d) b
+  | ElseIf e2 t2 r2 => indent c d ++ kw "elseif" :: sp :: pexp e2 ++ sp :: kw "then" :: eol c :: pblk (S d) t2 ++ pels d r2
+  end
+with pitem (d : nat) (i : item) {struct i} : list tok :=
+  match i with
+  | Item lead blank s trail =>
+    ptrivia d lead ++ (if blank then [eol c] else []) ++ indent c d ++ pstmt d s ++ ptrail trail ++ [eol c]
+  end
+with pblk (d : nat) (b : blk) {struct b} : list tok :=
+  match b with Blk is tl => List.concat (map (pitem d) is) ++ ptrivia d tl end.
+Definition pprog (p : blk) : list tok := pblk 0 p.
 End Print.
 
 (* the formatter on L0: bytes of the output for a program *)
-Definition format0 (c : cfg0) (p : list stmt) : bytes := render (pprog c (nprog p)).
+Definition format0 (c : cfg0) (p : blk) : bytes := render (pprog c (nprog p)).
